@@ -119,3 +119,11 @@ Theorem model_begin_block_resets : forall c,
   cached_power (poa (poa_begin_block c)) = (if 1 <? height c then last_total (stk c) else cached_power (poa c)) /\
   abs_changed (poa (poa_begin_block c)) = (if 1 <? height c then 0 else abs_changed (poa c)).
 Proof. intros c. unfold poa_begin_block. destruct (1 <? height c); split; reflexivity. Qed.
+
+(* non-vacuity: a stale cached total of 33 becomes x/staking's 40, an equal one stays; a running sum of 5 becomes 0; 5 + 2 = 7 *)
+Example reset_examples :
+  after ICached 33 (wrun 40 33 5 2 x_guards_Keeper_ResetCachedTotalPower) = Some 40 /\
+  after ICached 40 (wrun 40 40 5 2 x_guards_Keeper_ResetCachedTotalPower) = Some 40 /\
+  after IChanged 5 (wrun 40 33 5 2 x_guards_Keeper_ResetAbsoluteBlockPower) = Some 0 /\
+  after IChanged 5 (wrun 40 33 5 2 x_guards_Keeper_IncreaseAbsoluteChangedInBlockPower) = Some 7.
+Proof. vm_compute. repeat split; reflexivity. Qed.
